@@ -1,7 +1,12 @@
 #!/bin/bash
 # usage: run_all.sh [tier] [extra gov flags...]   runs every registered check sequentially; prints the summary lines
+# and, last, one line "SWEEP ok" or "SWEEP ALARM: <ids>" -- read it before committing baselines or evidence
 tier=${1:-quick}; shift
 cd /verif
+bad=""
 for p in $(python3 -c "import json;print(' '.join(c['property_id'] for c in json.load(open('/verif/MANIFEST.json'))['checks']))"); do
-  bin/gov check -p $p -tier $tier "$@" 2>&1 | grep -E "^(VIOLATION|property|ENGINE)|^  (failed|undecided)" 
+  out=$(bin/gov check -p $p -tier $tier "$@" 2>&1); rc=$?
+  echo "$out" | grep -E "^(VIOLATION|property|ENGINE)|^  (failed|undecided)"
+  [ $rc -ne 0 ] && bad="$bad $p(exit $rc)"
 done
+if [ -z "$bad" ]; then echo "SWEEP ok ($tier)"; else echo "SWEEP ALARM ($tier):$bad"; fi
